@@ -437,7 +437,7 @@ Lemma dbp_go_S bits f cap s : (0 < cap)%nat -> d_rem s <> 0 ->
           else Ok s1) ;;
    let count := Nat.min cap (N.to_nat (d_per s2 - d_mb_val s2)) in
    '(raw, buf1, pos1) <- bit_unpack bits (d_w s2) count (d_buf s2) (d_pos s2) ;;
-   if d_rem s2 <? N.of_nat count then Panic else
+   if d_rem s2 <? N.of_nat count then Err else
    let '(vs, last) := dbp_accum bits (d_min s2) (d_prev s2) raw in
    let mv := d_mb_val s2 + N.of_nat count in
    let s3 := mk_dbp buf1 (d_mbc s2) (d_total s2) (d_rem s2 - N.of_nat count) (d_widths s2)
